@@ -165,3 +165,12 @@ Definition order_mismatches (cs : list (int * list decl * skind)) : list N :=
    model of goa's validation must refuse them too *)
 Definition reject_mismatches (cs : list (int * list member)) : list N :=
   flat_map (fun c => match c with (i, ms) => if goa_accepts TopPlain ms then [n_of i] else [] end) cs.
+
+(* stream-handler stream: (metadata the client encoder wrote, what the server request
+   decoder read per key, the method has a request decoder, decoding succeeds, stages) *)
+Definition streamhandler_mismatches
+  (cs : list (int * list (str * list str) * list (str * list str) * bool * bool * list stage)) : list N :=
+  flat_map (fun c => match c with (i, written, seen, hasdec, dok, tr) =>
+     let m := md_write [] written in
+     if forallb (fun kv => strs_eqb (md_get m (fst kv)) (snd kv)) seen && stages_eqb (stream_trace hasdec dok) tr
+     then [] else [n_of i] end) cs.
